@@ -453,4 +453,34 @@ def confirm (isTrue : Str → Bool) (default : Bool) (interactive : Bool) (scrip
       ⟨.answer (normalize isTrue default (if a.isEmpty then .inl default else .inr a)), 1, 1⟩
   else ⟨.answer default, 0, 0⟩
 
+/-! ### deciders for the hypotheses of the interchangeability theorems (Props/C18 `interchange_dec`)
+
+"An index and the value it denotes are interchangeable" holds for values that can be typed and are
+not ambiguous.  `interchangeHypB` is that side condition, executable: the driver answers it for
+every (list, index) pair the harness generates (entry `c18.interchange_hyp`, together with the index
+text `str(i)` the model uses), the harness evaluates the same condition with Python's own `str`,
+`bytes.strip` and `re`, and the two are compared; where it is true the oracle demands the
+interchangeability. -/
+
+/-- one item of a multi-select answer: `[a-zA-Z0-9_-]+` -/
+def wordyB (p : Str) : Bool := !p.isEmpty && p.all isWordChar
+
+/-- the value survives `_read_from_input` (it is not empty and has no surrounding white space) -/
+def typableB (v : Str) : Bool := !v.isEmpty && bytesStrip v == v
+
+/-- `choices[i]` exists, occurs once, the text of `i` is not itself a choice, and the value can be
+typed (as a whole line when single-select, as one item when multi-select) -/
+def interchangeHypB (choices : List Str) (multi : Bool) (i : Nat) : Bool :=
+  match choices[i]? with
+  | none => false
+  | some v =>
+    (choices.filter (· == v)).length == 1 && !(choices.contains (Nat.toDigits 10 i)) &&
+    (if multi then wordyB v else typableB v)
+
+/-- the prompt can be built (the hypothesis `promptCheck … = .ok ()` of the attempt theorems) -/
+def promptOkB (toInt : Str → Option Int) (choices : List Str) (multi : Bool) (default : Option Str) : Bool :=
+  match promptCheck toInt choices multi default with
+  | .ok _ => true
+  | .error _ => false
+
 end Clikit.Question
